@@ -11,111 +11,111 @@ theorem applied_dense (c : LCfg) :
     appliedSlots (slotCount .dense) [qlayer .dense c] = reportedLive .dense c := by
   simp only [qlayer, qDense, qw, withAct, reportedLive]
   cases _ha : c.hasAct <;> cases _hb : c.useBias <;> cases _h0 : c.hasQ 0 <;> cases _h1 : c.hasQ 1 <;>
-  simp [quantSites, appliedSlots, getQuantizers, slotCount, slotLive, List.range_succ, recip, *]
+  simp [quantSites, appliedSlots, getQuantizers, slotCount, slotLive, List.range_succ, recip, recipIn, spatialStart, *]
 
 theorem own_dense (c : LCfg) : (quantSites (qlayer .dense c)).all (ownTarget c) = true := by
   simp only [qlayer, qDense, qw, withAct]
   cases _ha : c.hasAct <;> cases _hb : c.useBias <;> cases _h0 : c.hasQ 0 <;> cases _h1 : c.hasQ 1 <;>
-  simp [quantSites, ownTarget, recip, *]
+  simp [quantSites, ownTarget, recip, recipIn, spatialStart, *]
 
 theorem applied_activation (c : LCfg) :
     appliedSlots (slotCount .activation) [qlayer .activation c] = reportedLive .activation c := by
   simp only [qlayer, qActivation, qw, withAct, reportedLive]
   cases _ha : c.hasAct <;>
-  simp [quantSites, appliedSlots, getQuantizers, slotCount, slotLive, List.range_succ, recip, *]
+  simp [quantSites, appliedSlots, getQuantizers, slotCount, slotLive, List.range_succ, recip, recipIn, spatialStart, *]
 
 theorem own_activation (c : LCfg) : (quantSites (qlayer .activation c)).all (ownTarget c) = true := by
   simp only [qlayer, qActivation, qw, withAct]
   cases _ha : c.hasAct <;>
-  simp [quantSites, ownTarget, recip, *]
+  simp [quantSites, ownTarget, recip, recipIn, spatialStart, *]
 
 theorem applied_conv1d (c : LCfg) :
     appliedSlots (slotCount .conv1d) [qlayer .conv1d c] = reportedLive .conv1d c := by
   simp only [qlayer, qConv1d, kConv1dOp, qw, withAct, reportedLive]
   by_cases hp : c.conv.padding = .causal <;> cases _ha : c.hasAct <;> cases _hb : c.useBias <;> cases _h0 : c.hasQ 0 <;> cases _h1 : c.hasQ 1 <;>
-  simp [quantSites, appliedSlots, getQuantizers, slotCount, slotLive, List.range_succ, recip, *]
+  simp [quantSites, appliedSlots, getQuantizers, slotCount, slotLive, List.range_succ, recip, recipIn, spatialStart, *]
 
 theorem own_conv1d (c : LCfg) : (quantSites (qlayer .conv1d c)).all (ownTarget c) = true := by
   simp only [qlayer, qConv1d, kConv1dOp, qw, withAct]
   by_cases hp : c.conv.padding = .causal <;> cases _ha : c.hasAct <;> cases _hb : c.useBias <;> cases _h0 : c.hasQ 0 <;> cases _h1 : c.hasQ 1 <;>
-  simp [quantSites, ownTarget, recip, *]
+  simp [quantSites, ownTarget, recip, recipIn, spatialStart, *]
 
 theorem applied_conv2d (c : LCfg) :
     appliedSlots (slotCount .conv2d) [qlayer .conv2d c] = reportedLive .conv2d c := by
   simp only [qlayer, qConv2d, qw, withAct, reportedLive]
   cases _hm : c.hasMask <;> cases _ha : c.hasAct <;> cases _hb : c.useBias <;> cases _h0 : c.hasQ 0 <;> cases _h1 : c.hasQ 1 <;>
-  simp [quantSites, appliedSlots, getQuantizers, slotCount, slotLive, List.range_succ, recip, *]
+  simp [quantSites, appliedSlots, getQuantizers, slotCount, slotLive, List.range_succ, recip, recipIn, spatialStart, *]
 
 theorem own_conv2d (c : LCfg) : (quantSites (qlayer .conv2d c)).all (ownTarget c) = true := by
   simp only [qlayer, qConv2d, qw, withAct]
   cases _hm : c.hasMask <;> cases _ha : c.hasAct <;> cases _hb : c.useBias <;> cases _h0 : c.hasQ 0 <;> cases _h1 : c.hasQ 1 <;>
-  simp [quantSites, ownTarget, recip, *]
+  simp [quantSites, ownTarget, recip, recipIn, spatialStart, *]
 
 theorem applied_sepConv1d (c : LCfg) :
     appliedSlots (slotCount .sepConv1d) [qlayer .sepConv1d c] = reportedLive .sepConv1d c := by
   simp only [qlayer, qSepConv1d, qw, withAct, reportedLive]
   by_cases hp : c.conv.padding = .causal <;> cases _ha : c.hasAct <;> cases _hb : c.useBias <;> cases _h0 : c.hasQ 0 <;> cases _h1 : c.hasQ 1 <;> cases _h2 : c.hasQ 2 <;>
-  simp [quantSites, appliedSlots, getQuantizers, slotCount, slotLive, List.range_succ, recip, *]
+  simp [quantSites, appliedSlots, getQuantizers, slotCount, slotLive, List.range_succ, recip, recipIn, spatialStart, *]
 
 theorem own_sepConv1d (c : LCfg) : (quantSites (qlayer .sepConv1d c)).all (ownTarget c) = true := by
   simp only [qlayer, qSepConv1d, qw, withAct]
   by_cases hp : c.conv.padding = .causal <;> cases _ha : c.hasAct <;> cases _hb : c.useBias <;> cases _h0 : c.hasQ 0 <;> cases _h1 : c.hasQ 1 <;> cases _h2 : c.hasQ 2 <;>
-  simp [quantSites, ownTarget, recip, *]
+  simp [quantSites, ownTarget, recip, recipIn, spatialStart, *]
 
 theorem applied_sepConv2d (c : LCfg) :
     appliedSlots (slotCount .sepConv2d) [qlayer .sepConv2d c] = reportedLive .sepConv2d c := by
   simp only [qlayer, qSepConv2d, qw, withAct, reportedLive]
   cases _ha : c.hasAct <;> cases _hb : c.useBias <;> cases _h0 : c.hasQ 0 <;> cases _h1 : c.hasQ 1 <;> cases _h2 : c.hasQ 2 <;>
-  simp [quantSites, appliedSlots, getQuantizers, slotCount, slotLive, List.range_succ, recip, *]
+  simp [quantSites, appliedSlots, getQuantizers, slotCount, slotLive, List.range_succ, recip, recipIn, spatialStart, *]
 
 theorem own_sepConv2d (c : LCfg) : (quantSites (qlayer .sepConv2d c)).all (ownTarget c) = true := by
   simp only [qlayer, qSepConv2d, qw, withAct]
   cases _ha : c.hasAct <;> cases _hb : c.useBias <;> cases _h0 : c.hasQ 0 <;> cases _h1 : c.hasQ 1 <;> cases _h2 : c.hasQ 2 <;>
-  simp [quantSites, ownTarget, recip, *]
+  simp [quantSites, ownTarget, recip, recipIn, spatialStart, *]
 
 theorem applied_dwConv2d (c : LCfg) :
     appliedSlots (slotCount .dwConv2d) [qlayer .dwConv2d c] = reportedLive .dwConv2d c := by
   simp only [qlayer, qDwConv2d, qw, withAct, reportedLive]
   cases _ha : c.hasAct <;> cases _hb : c.useBias <;> cases _h0 : c.hasQ 0 <;> cases _h1 : c.hasQ 1 <;>
-  simp [quantSites, appliedSlots, getQuantizers, slotCount, slotLive, List.range_succ, recip, *]
+  simp [quantSites, appliedSlots, getQuantizers, slotCount, slotLive, List.range_succ, recip, recipIn, spatialStart, *]
 
 theorem own_dwConv2d (c : LCfg) : (quantSites (qlayer .dwConv2d c)).all (ownTarget c) = true := by
   simp only [qlayer, qDwConv2d, qw, withAct]
   cases _ha : c.hasAct <;> cases _hb : c.useBias <;> cases _h0 : c.hasQ 0 <;> cases _h1 : c.hasQ 1 <;>
-  simp [quantSites, ownTarget, recip, *]
+  simp [quantSites, ownTarget, recip, recipIn, spatialStart, *]
 
 theorem applied_avgPool2d (c : LCfg) :
     appliedSlots (slotCount .avgPool2d) [qlayer .avgPool2d c] = reportedLive .avgPool2d c := by
   simp only [qlayer, qAvgPool2d, qw, withAct, reportedLive]
   cases _ha : c.hasAct <;> cases _h0 : c.hasQ 0 <;>
-  simp [quantSites, appliedSlots, getQuantizers, slotCount, slotLive, List.range_succ, recip, *]
+  simp [quantSites, appliedSlots, getQuantizers, slotCount, slotLive, List.range_succ, recip, recipIn, spatialStart, *]
 
 theorem own_avgPool2d (c : LCfg) : (quantSites (qlayer .avgPool2d c)).all (ownTarget c) = true := by
   simp only [qlayer, qAvgPool2d, qw, withAct]
   cases _ha : c.hasAct <;> cases _h0 : c.hasQ 0 <;>
-  simp [quantSites, ownTarget, recip, *]
+  simp [quantSites, ownTarget, recip, recipIn, spatialStart, *]
 
 theorem applied_globalAvgPool2d (c : LCfg) :
     appliedSlots (slotCount .globalAvgPool2d) [qlayer .globalAvgPool2d c] = reportedLive .globalAvgPool2d c := by
   simp only [qlayer, qGlobalAvgPool2d, qw, withAct, reportedLive]
   cases _ha : c.hasAct <;> cases _h0 : c.hasQ 0 <;>
-  simp [quantSites, appliedSlots, getQuantizers, slotCount, slotLive, List.range_succ, recip, *]
+  simp [quantSites, appliedSlots, getQuantizers, slotCount, slotLive, List.range_succ, recip, recipIn, spatialStart, *]
 
 theorem own_globalAvgPool2d (c : LCfg) : (quantSites (qlayer .globalAvgPool2d c)).all (ownTarget c) = true := by
   simp only [qlayer, qGlobalAvgPool2d, qw, withAct]
   cases _ha : c.hasAct <;> cases _h0 : c.hasQ 0 <;>
-  simp [quantSites, ownTarget, recip, *]
+  simp [quantSites, ownTarget, recip, recipIn, spatialStart, *]
 
 theorem applied_scaleShift (c : LCfg) :
     appliedSlots (slotCount .scaleShift) [qlayer .scaleShift c] = reportedLive .scaleShift c := by
   simp only [qlayer, qScaleShift, qw, withAct, reportedLive]
   cases _ha : c.hasAct <;> cases _hb : c.useBias <;> cases _h0 : c.hasQ 0 <;> cases _h1 : c.hasQ 1 <;>
-  simp [quantSites, appliedSlots, getQuantizers, slotCount, slotLive, List.range_succ, recip, *]
+  simp [quantSites, appliedSlots, getQuantizers, slotCount, slotLive, List.range_succ, recip, recipIn, spatialStart, *]
 
 theorem own_scaleShift (c : LCfg) : (quantSites (qlayer .scaleShift c)).all (ownTarget c) = true := by
   simp only [qlayer, qScaleShift, qw, withAct]
   cases _ha : c.hasAct <;> cases _hb : c.useBias <;> cases _h0 : c.hasQ 0 <;> cases _h1 : c.hasQ 1 <;>
-  simp [quantSites, ownTarget, recip, *]
+  simp [quantSites, ownTarget, recip, recipIn, spatialStart, *]
 
 theorem rep_simpleRNN (c : LCfg) :
     appliedSlots 4 (qcell .simpleRNN c) = reportedLiveCell .simpleRNN c ∧
